@@ -292,9 +292,18 @@ fn id_text_variants(rng: &mut Rng) -> String {
     // texts close to valid local ids
     let digits = |rng: &mut Rng, n: usize| -> String { (0..n).map(|_| (b'0' + rng.below(10) as u8) as char).collect() };
     match rng.below(16) {
-        0 => format!("#{}#", digits(rng, *rng.pick(&[0usize, 1, 2, 19, 20, 21, 25]))),
-        1 => format!("#0{}#", digits(rng, rng.below(4) as usize)),
-        2 => format!("#+{}#", digits(rng, 1 + rng.below(4) as usize)),
+        0 => {
+            let n = *rng.pick(&[0usize, 1, 2, 19, 20, 21, 25]);
+            format!("#{}#", digits(rng, n))
+        }
+        1 => {
+            let n = rng.below(4) as usize;
+            format!("#0{}#", digits(rng, n))
+        }
+        2 => {
+            let n = 1 + rng.below(4) as usize;
+            format!("#+{}#", digits(rng, n))
+        }
         3 => rng.pick(&["#18446744073709551615#", "#18446744073709551616#", "#18446744073709551614#", "#99999999999999999999#", "#10000000000000000000#", "#0#", "#00#", "##", "#", "#-1#", "# 1#", "#1 #", "#١#", "#1١#", "#1_000#", "#1e3#", "#0x10#"]).to_string(),
         4 => rng.pick(&["<>", "<", ">", "<a", "a>", "<<>>", "<a>b>", "<é>", "< >", "<a b>", "<_>", "<#>", "[]", "[", "]", "[0]", "[0g]", "[00]", "[AB]", "[aB]", "[é]", "{}", "{", "}", "{-}", "{---}", ""]).to_string(),
         5 => {
@@ -428,7 +437,10 @@ impl Area for A {
                                 let n = *rng.pick(&[0usize, 1, 5, 64, 65]);
                                 writeln!(out, "{} s:{}", op, hexs(&some_unicode(rng, n))).unwrap()
                             }
-                            1 => writeln!(out, "{} b:{}", op, hex(&rng.bytes(*rng.pick(&[0usize, 1, 64, 65, 100])))).unwrap(),
+                            1 => {
+                                let n = *rng.pick(&[0usize, 1, 64, 65, 100]);
+                                writeln!(out, "{} b:{}", op, hex(&rng.bytes(n))).unwrap()
+                            }
                             _ => writeln!(out, "{} s:{}", op, hexs(&"a".repeat(*rng.pick(&[0usize, 1, 64, 65])))).unwrap(),
                         }
                     }
@@ -442,7 +454,10 @@ impl Area for A {
                                     let k = rng.below(v.len() as u64 + 1) as usize;
                                     v.truncate(k)
                                 }
-                                1 => v.extend(rng.bytes(1 + rng.below(3) as usize)),
+                                1 => {
+                                    let n = 1 + rng.below(3) as usize;
+                                    v.extend(rng.bytes(n))
+                                }
                                 2 => {
                                     let i = rng.below(v.len() as u64) as usize;
                                     v[i] = rng.next() as u8
@@ -469,7 +484,10 @@ impl Area for A {
                             v.extend(if rng.chance(1, 2) { vec![b'a'; n] } else { rng.bytes(n) });
                             v
                         }
-                        _ => rng.bytes(rng.below(12) as usize),
+                        _ => {
+                            let n = rng.below(12) as usize;
+                            rng.bytes(n)
+                        }
                     };
                     writeln!(out, "nfdec {}", hex(&b)).unwrap()
                 }
@@ -570,7 +588,7 @@ struct R;
 fn nfdec(b: &[u8]) -> Result<(NonFungibleLocalId, usize), DecodeError> {
     let mut d = ScryptoDecoder::new(b, 1);
     let id = NonFungibleLocalId::decode_body_common(&mut d)?;
-    Ok((id, d.remaining_bytes()))
+    Ok((id, b.len() - d.get_offset()))
 }
 
 impl Runner for R {
